@@ -171,10 +171,30 @@ S17c == <<[S17[1] EXCEPT !.objects = [@ EXCEPT ![1] = Obj("p", "Root", [RootT EX
                                           Obj("p", "L3", TStruct(<<Field("a", TString, TRUE), Field("b", TScalar("bool"), FALSE), Field("c", TArray(TString), FALSE),
                                                                   Field("id", TScalar("int64"), FALSE), Field("ID", TString, FALSE)>>))>>],
           S17[2]>>
+\* "layout" schema set (round 6): options whose arguments and assignments are NOT in pairs, and builders whose constructor
+\* takes arguments.  Leaf / Alt: a constant field before the fields that become arguments, the first of them a proper
+\* disjunction (Leaf) / a reference to a struct generated from a disjunction (Alt); Mid: refers to them directly and in a list, and to a struct generated from a disjunction; Top: refers to Mid
+\* (destination of merge_into); Panel + the composable package q whose Options refers to a struct generated from a disjunction.
+LeafT == TStruct(<<Field("kind", TConst("string", VStr("fixed")), TRUE),
+                   Field("value", TDisj(<<TString, TScalar("int64")>>, "", <<>>), TRUE),
+                   Field("weight", TScalar("int64"), FALSE)>>)
+AltT  == TStruct(<<Field("kind", TConst("string", VStr("alt")), TRUE),
+                   Field("sel", TRef("p", "U"), FALSE),
+                   Field("weight", TScalar("int64"), TRUE),
+                   Field("value", TDisj(<<TString, TScalar("bool")>>, "", <<>>), FALSE)>>)
+MidT  == TStruct(<<Field("leaf", TRef("p", "Leaf"), TRUE), Field("alt", TRef("p", "Alt"), FALSE),
+                   Field("items", TArray(TRef("p", "Leaf")), FALSE), Field("name", TString, TRUE), Field("u", TRef("p", "U"), FALSE)>>)
+TopT  == TStruct(<<Field("mid", TRef("p", "Mid"), TRUE), Field("title", TString, FALSE)>>)
+S17d == <<SchemaOf("p", <<Obj("p", "Top", TopT), Obj("p", "Mid", MidT), Obj("p", "Leaf", LeafT), Obj("p", "Alt", AltT),
+                          Obj("p", "U", UT), Obj("p", "Panel", PanelT)>>),
+          [SchemaOf("q", <<Obj("q", "Options", TStruct(<<Field("o1", TString, TRUE), Field("qu", TRef("q", "QU"), FALSE)>>)),
+                           Obj("q", "QU", UT)>>)
+             EXCEPT !.meta = [kind |-> "composable", variant |-> "panelcfg", id |-> "qid"]]>>
 CONSTANTS Chains,            \* C17: the nested schema set and the alphabet of path-lengthening rules only
           WithMarker,        \* C17: add an object whose builder has no option
-          FirstFromR2        \* C17: take the first rule from the reduced alphabet too (simulation of long histories)
-SS == IF WithMarker THEN S17b ELSE IF Chains THEN S17c ELSE S17
+          FirstFromR2,       \* C17: take the first rule from the reduced alphabet too (simulation of long histories)
+          Layout             \* C17: the layout schema set and its alphabet (arguments/assignments not in pairs, constructor arguments)
+SS == IF WithMarker THEN S17b ELSE IF Chains THEN S17c ELSE IF Layout THEN S17d ELSE S17
 B0 == Derive(SS)
 
 BO(p, n) == [k |-> "by_object", pkg |-> p, name |-> n]
@@ -327,7 +347,32 @@ RWiring == <<OM2I(R("labels")), OSfa(R("inner"), <<>>), OA2A(R("tags")),
              \* an option rule in the common set, then the language's promote_options_to_constructor on what it produced
              BR("promote", BO("p", "Root")) @@ [options |-> <<"tags", "labels", "inner", "name">>]>>
 CONSTANT Wiring
-R2 == IF Chains THEN RChain ELSE IF Wiring THEN RWiring ELSE IF Ext THEN R2Full \o R2Extra ELSE R2Full
+\* layout (round 6), exhaustive: option rules that leave an option with assignments its arguments do not pair with
+\* (constants in front of / between the argument assignments, one envelope for several arguments), rules that address an
+\* argument BY INDEX on such options, promote_options_to_constructor on the SOURCE of merge_into / on the composable
+\* builder of compose (constructor arguments next to direct, append and envelope assignments), then the merge itself.
+MOpt(opts) == ON("Mid", opts)
+QOpt(opts) == [k |-> "by_name", pkg |-> "q", object |-> "Options", options |-> opts]
+AltValueT == TDisj(<<TString, TScalar("bool")>>, "", <<>>)
+\* an option added by a veneer: two arguments, three assignments, the constant between the two argument assignments
+AddOptAlt == [name |-> "altW", comments |-> <<>>, args |-> <<Arg("weight", TScalar("int64")), Arg("value", AltValueT)>>,
+              assigns |-> <<[path |-> <<"alt", "weight">>, method |-> "direct", value |-> [k |-> "arg", arg |-> Arg("weight", TScalar("int64"))]],
+                            [path |-> <<"alt", "kind">>, method |-> "direct", value |-> [k |-> "const", val |-> VStr("alt")]],
+                            [path |-> <<"alt", "value">>, method |-> "direct", value |-> [k |-> "arg", arg |-> Arg("value", AltValueT)]]>>]
+RLayout == <<OA2A(MOpt(<<"items">>)),
+             OSfa(MOpt(<<"leaf", "alt", "item">>), <<>>),
+             ODisj(MOpt(<<"leaf", "u", "alt">>), 0),
+             ODisj(MOpt(<<"altW">>), 1),
+             ODisj(QOpt(<<"qu">>), 0),
+             BR("promote", BO("p", "Mid")) @@ [options |-> <<"leaf", "item", "str", "name", "altW">>],
+             BR("promote", BO("q", "Options")) @@ [options |-> <<"o1", "str">>],
+             BR("add_option", BO("p", "Mid")) @@ [option |-> AddOptAlt],
+             BR("merge_into", BN("Top")) @@ [source |-> "Mid", under |-> <<"mid">>, exclude |-> <<>>, rename |-> <<>>],
+             Compose(BV("panelcfg"), "Panel", "type", <<>>, "", FALSE)>>
+\* histories of four rules in the layout run: two option rules, then two builder rules (what shapes an option, what
+\* promotes it, what merges the promoted builder)
+LayoutShape(h, r) == IF Len(h) < 3 THEN TRUE ELSE h[1].kind = "o" /\ h[2].kind = "o" /\ h[3].kind = "b" /\ r.kind = "b"
+R2 == IF Chains THEN RChain ELSE IF Wiring THEN RWiring ELSE IF Layout THEN RLayout ELSE IF Ext THEN R2Full \o R2Extra ELSE R2Full
 R2All == {R2[i] @@ [lang |-> "all"] : i \in DOMAIN R2}
 
 LangAfter(last, r) == IF last.lang = "go" THEN "go" ELSE IF last.kind = "o" /\ r.kind = "b" THEN "go" ELSE "all"
@@ -345,6 +390,7 @@ Next17 == /\ ~err /\ Len(hist) < MaxLen
              \/ /\ hist # <<>> /\ hist[1] \in R2All
                 /\ \E i \in DOMAIN R2 :
                      /\ Allowed(Last(hist), R2[i])
+                     /\ (IF Layout THEN LayoutShape(hist, R2[i]) ELSE TRUE)
                      /\ (Len(hist) = 1 => (i + R2Index(hist[1])) % NSlices = Slice)
                      /\ Step(R2[i] @@ [lang |-> LangAfter(Last(hist), R2[i])])
 Spec17 == Init17 /\ [][Next17]_vars
